@@ -787,8 +787,23 @@ def _pv(v):
 # ------------------------------------------------------------------------------------ known findings
 
 def f19_match(fn, args, record):
-    """F19: exactly the CoinsConf.BitcoinRegTest p2wpkh witness version."""
-    return fn == "cc_param" and list(args) == ["BitcoinRegTest", "p2wpkh_wit_ver"]
+    """F19: exactly the CoinsConf.BitcoinRegTest p2wpkh witness version -- as a violated registry rule
+    (cc_param) or as the one difference between the committed snapshot (which holds the right value 0)
+    and the live entry (reg_cconf).  Any other difference in that entry is NOT matched."""
+    if fn == "cc_param":
+        return list(args) == ["BitcoinRegTest", "p2wpkh_wit_ver"]
+    if fn == "reg_cconf" and len(args) == 2 and args[1] == "BitcoinRegTest" and record.get("kind") == "divergence":
+        from framework import jdec, norm
+        try:
+            mo, im = jdec(record["model"]["ok"]), jdec(record["impl"]["ok"])
+        except (KeyError, TypeError):
+            return False
+        if [norm(x) for x in mo[:3]] != [norm(x) for x in im[:3]] or len(mo[3]) != len(im[3]):
+            return False
+        diffs = [(a, b) for a, b in zip(mo[3], im[3]) if norm(a) != norm(b)]
+        return len(diffs) == 1 and norm(diffs[0][0]) == norm(["p2wpkh_wit_ver", [2, 0]]) \
+            and norm(diffs[0][1]) == norm(["p2wpkh_wit_ver", [2, 1]])
+    return False
 
 
 def f19_match_replay():
